@@ -97,7 +97,7 @@ func c05Run(c c05Case) *vlib.Failure {
 		// the real decoder reads the ELF-sections tag of a multiboot2 information block
 		keep := c05InstallMultiboot(c.Sections, c.MbLead)
 		defer func() { _ = keep }()
-		visitElfSectionsFn = multiboot.VisitElfSections
+		visitElfSectionsFn = vmShipped.visitElfSectionsFn
 	} else {
 		visitElfSectionsFn = func(v multiboot.ElfSectionVisitor) {
 			for _, s := range c.Sections {
